@@ -711,7 +711,59 @@ def r177(facts, res):
         res.ok(R, 'max-final', loc_of(b, sb), 'the maximum is final only when no production is incomplete or it is infinite (%d paths)' % len(ps))
 
 
+def r178(facts, res):
+    """"Generated minimal sentences are derivable": min_sentence walks productions with an explicit stack.  When it meets a rule symbol
+    it defers - it pushes the continuation of the current production and the rule's cheapest production - and must then STOP scanning
+    the current production: going on emits the symbols after the rule before the rule's own text, and emits them again when the
+    continuation is popped.  Decided: on every round of the symbol loop that pushes onto the work stack, the loop is left."""
+    R = 'R17.8'
+    from lrstep import widening_walker, loop_assigned
+    bs = [b for b in facts.lib_bodies(['cfgrammar']) if b.name == 'min_sentence' and 'SentenceGenerator' in (b.impl_of or '') and b.kind != 'closure']
+    if len(bs) != 1:
+        res.lost(R, 'SentenceGenerator::min_sentence not found')
+        return
+    b = bs[0]
+    loops = b.loops()
+    # the work stack: the Vec popped by the outer loop
+    pops = [(bb, t) for bb, t in b.calls_named('pop') if t['args']]
+    if len(pops) != 1:
+        res.lost(R, 'expected one pop of the work stack in min_sentence, found %d' % len(pops))
+        return
+    stack = b.op_root(pops[0][1]['args'][0])[0]
+    pushes = [(bb, t) for bb, t in b.calls_named('push') if t['args'] and b.op_root(t['args'][0])[0] == stack]
+    outer = [h for h in loops if pops[0][0] in loops[h]]
+    oh = min(outer, key=lambda x: len(loops[x])) if outer else None
+    # the symbol loop: nested in the pop loop, and its header dominates the deferring pushes (which, once the scan stops after
+    # them, are no longer part of the natural loop: they cannot come back to its header)
+    inner = [h for h in loops if oh is not None and h != oh and h in loops[oh] and pops[0][0] not in loops[h] and pushes and all(b.dominates(h, pb) for pb, _ in pushes)]
+    if not pushes or not inner:
+        res.lost(R, 'min_sentence does not push deferred work from inside a loop over a production\'s symbols')
+        return
+    h = min(inner, key=lambda x: len(loops[x]))
+    w = widening_walker(b, facts, max_paths=1024)
+    w.widen_headers = set(loops) - {h}
+    w.widen_assigned = {x: loop_assigned(b, x) for x in w.widen_headers}
+    bad = None
+    n = 0
+    for p in w.run(h, stop=lambda x: x == oh or x not in loops[oh]):
+        np = len([e for e in p.events if e[0] == 'call' and any(e[1] == pb for pb, _ in pushes)])
+        if not np:
+            continue
+        n += 1
+        if p.end == ('loop', h):
+            bad = p
+    if not n:
+        res.lost(R, 'no round of the symbol loop defers work')
+    elif bad is not None:
+        res.bad(R, 'defer-then-stop', loc_of(b, h), 'after deferring to a rule\'s production (work pushed at line %s) the scan of the current production goes on: the symbols behind the rule are '
+                'emitted before the rule\'s own text and once more when the continuation is resumed - the result is not a sentence of the grammar'
+                % b.term([e[1] for e in bad.events if e[0] == 'call' and any(e[1] == pb for pb, _ in pushes)][0]).get('line'), {'function': b.path})
+    else:
+        res.ok(R, 'defer-then-stop', loc_of(b, h), 'each of the %d rounds that defer to a rule\'s production leaves the scan of the current one' % n)
+
+
 def run(facts, res):
+    r178(facts, res)
     r176(facts, res)
     r177(facts, res)
     r175(facts, res)
